@@ -10,7 +10,8 @@ if [ ! -d "$R" ]; then git -C /repo worktree add -q --detach "$R" HEAD; fi
 git -C "$R" checkout -q --detach "$(git -C /repo rev-parse HEAD)"
 git -C "$R" checkout -q -- . && git -C "$R" clean -fdq
 mkdir -p "$V"
-rsync -a --delete --exclude .git --exclude evidence --exclude replays /verif/ "$V"/
+# VERIF_SRC: a frozen copy of /verif to take the checks from (so that /verif can be edited meanwhile)
+rsync -a --delete --exclude .git --exclude evidence --exclude replays "${VERIF_SRC:-/verif}"/ "$V"/
 mkdir -p "$V/evidence" "$V/replays"
 git -C "$R" apply "$PATCH"
 ( cd "$R" && GOFLAGS=-mod=mod GOPROXY=off GOSUMDB=off go build ./... ) || { echo "PATCH DOES NOT BUILD"; exit 3; }
